@@ -195,6 +195,45 @@ def run_table(names, alphabet, counters, digests, violations, known, fp, pairs=T
             digests.add(digest([names, sel_text(sel)]))
         if exp[0] == "v" and ok:
             single.append((sel, exp[1]))
+    # ---- the SAME (warm) table after its index column was replaced through the API -- whole column assigned, deleted
+    # (del / pop) and re-created, or rewritten cell by cell: every selector denotes rows of the column as it is now
+    if n >= 2 and sels is not None or (n >= 2 and counters.get("tables", 0) % 3 == 0):
+        how = ("setcol", "del+set", "pop+set", "cells", "setattr")[(counters.get("index_column_replacements", 0)) % 5]
+        names2 = names[1:] + names[:1] if counters.get("index_column_replacements", 0) % 2 else names[::-1]
+        if names2 == names:
+            names2 = names[:-1] + [names[-1] + "q"]
+        try:
+            if how == "setcol":
+                t["name"] = np.array(names2, dtype=object)
+            elif how == "setattr":
+                t.name = np.array(names2, dtype=object)
+            elif how == "del+set":
+                del t["name"]
+                t["name"] = np.array(names2, dtype=object)
+            elif how == "pop+set":
+                t.pop("name")
+                t["name"] = np.array(names2, dtype=object)
+            else:
+                for i_, v_ in enumerate(names2):
+                    t["name", i_] = v_
+        except Exception as exc:
+            violations.append({"what": "C08 replacing the index column (%s) raised %s: %s" % (how, type(exc).__name__, str(exc)[:200]), "names": names})
+            return
+        counters["index_column_replacements"] = counters.get("index_column_replacements", 0) + 1
+        if list(t._data["name"]) != names2:
+            violations.append({"what": "C08 harness premise: index column after %s is %s, expected %s" % (how, list(t._data["name"]), names2), "names": names})
+            return
+        for sel in (sels if sels is not None else selectors(names2, alphabet)):
+            exp = oracle(names2, cols, sel)
+            if exp[0] == "v" and any(i < 0 or i >= n for i in exp[1]):
+                continue
+            obs = observe(t, sel)
+            counters["selectors_after_index_column_replacement"] = counters.get("selectors_after_index_column_replacement", 0) + 1
+            compare("%s after the index column %s was replaced (%s) by" % (sel_text(sel), names, how), names2, exp, obs, counters, violations, known, [(names2, sel)])
+            if len(violations) >= 12:
+                return
+        # back to the original column (whole-column assignment) for the pair enumeration below
+        t["name"] = np.array(names, dtype=object)
     # ---- other tables in the same process, built with OTHER regex flags, use the same selector text first:
     # the default table must still match case-insensitively (fresh pattern text per table, so that no
     # process-wide memo of an earlier default table can hide a leak)
